@@ -1,5 +1,6 @@
 import GLua.Engines.TableEng
 import GLua.Engines.SemEng
+import GLua.Engines.C01MEng
 import GLua.Engines.ProtoEng
 import GLua.Engines.PCallEng
 import GLua.Engines.CallEng
@@ -40,6 +41,7 @@ def stepLine (s : DState) (line : String) : DState × String :=
   | "reset" :: _ => ({}, "ok")
   | "T" :: r => let (t, v) := TableEng.handle s.tbl r; ({ s with tbl := t }, v.show)
   | "S" :: r => (s, SemEng.handle r)
+  | "C01M" :: r => (s, (C01MEng.handle r).show)
   | "C07" :: r => (s, (ProtoEng.handle r).show)
   | "C05M" :: r => let (t, v) := PCallEng.handle s.pc05 r; ({ s with pc05 := t }, v.show)
   | "C02M" :: r => let (t, v) := CallEng.handle s.c02m r; ({ s with c02m := t }, v.show)
